@@ -1570,6 +1570,33 @@ MA('C12', 'CG step length from the new residual', ITERF,
 MA('C12', 'Landweber steps along the residual without the adjoint sign', ITERF,
    'landweber', 'x.lincomb(1, x, -omega, tmp_dom)',
    'x.lincomb(1, x, omega, tmp_dom)', 'R8')
+MA('C07', 'squared-norm proximal with per-point step subtracts the data term', PROXF,
+   'proximal_l2_squared.ProximalL2Squared._call',
+   'out.lincomb(1, x, 1, out)', 'out.lincomb(1, x, -1, out)',
+   'step per point')
+MA('C07', 'l1 proximal with per-point step uses the first step everywhere', PROXF,
+   'proximal_l1.ProximalL1.__init__', 'self.sigma = space.element(sigma)',
+   'self.sigma = space.element(sigma)[0] * space.one()', 'step per point')
+MA('C06', 'sum rule skips the right summand when the left one is linear', OPR,
+   'OperatorSum.derivative',
+   'return OperatorSum(self.left.derivative(x), self.right.derivative(x), self.__tmp_ran, self.__tmp_dom)',
+   'return OperatorSum(self.left.derivative(x), self.right if self.left.is_linear else self.right.derivative(x), self.__tmp_ran, self.__tmp_dom)',
+   'Multiply + Power2')
+MA('C09', 'translation inherits the linear flag', FUNF,
+   'FunctionalTranslation.__init__',
+   'super(FunctionalTranslation, self).__init__(space=func.domain, linear=False, grad_lipschitz=func.grad_lipschitz)',
+   'super(FunctionalTranslation, self).__init__(space=func.domain, linear=func.is_linear, grad_lipschitz=func.grad_lipschitz)',
+   'translated(y)')
+MA('C09', 'sum ignores an unknown Lipschitz bound', FUNF,
+   'FunctionalSum.__init__',
+   'Functional.__init__(self, space=left.domain, linear=left.is_linear and right.is_linear, grad_lipschitz=left.grad_lipschitz + right.grad_lipschitz)',
+   'Functional.__init__(self, space=left.domain, linear=left.is_linear and right.is_linear, grad_lipschitz=np.nansum([left.grad_lipschitz, right.grad_lipschitz]))',
+   'R3n')
+MA('C10', 'composition reuses out as the intermediate of an aliased call', OPR,
+   'OperatorComp._call',
+   'tmp = self.__tmp if self.__tmp is not None else self.right.range.element()',
+   'tmp = self.__tmp if self.__tmp is not None else (out if x is out and out in self.right.range else self.right.range.element())',
+   'R3')
 M('C15', 'element from a callable no longer owns its data (regression)', 'odl/discr/discr_space.py',
   "                sampled = np.array(sampled, copy=True)",
   "                pass", 'C15-R4c')
